@@ -64,8 +64,10 @@ struct Fault {
     int rd_err_at = -1;  // read cookie fails at this byte offset
     int rd_errno = 0;
     int bufmode = 0;     // 0 default(full), 1 unbuffered, 2 line, 3 small(16)
+    int sys_k = 0;       // the k-th file-system / descriptor call the library makes in this op fails (1-based); 0 = none
+    int sys_errno = 0;
     bool any() const {
-        return alloc_k || alloc_mask || wr_fail_at >= 0 || wr_chunk || rd_chunk || rd_err_at >= 0 || bufmode;
+        return alloc_k || alloc_mask || wr_fail_at >= 0 || wr_chunk || rd_chunk || rd_err_at >= 0 || bufmode || sys_k;
     }
 };
 struct Op {
@@ -128,7 +130,7 @@ struct OpResult {
     uint32_t double_free = 0; // blocks the library released a second time (the second free is not executed)
     uint32_t heap_overrun = 0; // blocks of the library whose red zone was found overwritten (at free / realloc / end of call)
     uint32_t heap_uaf = 0;     // blocks written to after the library released them (found at end of call), or re-used after release
-    uint32_t wr_faults = 0, rd_faults = 0;
+    uint32_t wr_faults = 0, rd_faults = 0, sys_faults = 0;
     std::vector<HCall> hcalls;
     std::vector<int> footprint; // indices into statics symbol table (solo pass only)
     std::vector<uint32_t> sites; // alloc site ids reached
@@ -205,6 +207,7 @@ struct Task {
     // per-op fault and stream state
     const Op *op = nullptr;
     uint32_t alloc_count = 0;
+    uint32_t sys_count = 0;   // file-system / descriptor calls made by the current op so far
     FILE *wr = nullptr, *rd = nullptr;
     size_t wr_bytes = 0, rd_pos = 0;
     uint8_t *alt_stack = nullptr; // simulator code called from inside library calls runs here (see alt_call)
@@ -268,6 +271,7 @@ size_t lib_tls_size();   // size of the library's thread-local block (0 if it ha
 void lib_thread_renew(); // calling thread: library TLS := initial image; library-created keys destructed and cleared
 void run_pass(const Plan &plan, const PassCfg &cfg, Strategy &strat, PassResult &out);
 void sim_event();                 // explicit yield point (harness callbacks)
+void sim_conflict_point();        // yield point that is also recorded as a conflict point of the current call (solo pass)
 void sim_log(uint64_t kind, uint64_t a, uint64_t b); // append to the run's event log
 void task_spawn(Task &parent, int child);           // C13
 void task_join(Task &self, int child);              // C13
